@@ -1367,6 +1367,11 @@ class Kconfig(object):
                 #           and choices every time we are loading the file.
                 for sym in self.unique_defined_syms:
                     sym._was_set = False
+                    if is_main_sdkconfig:
+                        # What an earlier main sdkconfig said about a symbol says nothing about this one:
+                        # a symbol that is absent from the file now was "not loaded from sdkconfig".
+                        sym._sdkconfig_value = None
+                        sym._loaded_as_default = False
 
                 for choice in self.unique_choices:
                     choice._was_set = False
